@@ -1289,6 +1289,13 @@ fn swap_segments(text: &str, segs: &[(usize, usize)], i: usize, j: usize) -> Opt
   Some(out)
 }
 
+/// self-test of the validity check (never set by the check): VH_REWRITE_SABOTAGE=range makes
+/// Parenthesise / WrapInBlock ignore the parentheses that belong to a node, =rename-partial makes
+/// RenameLocal forget one occurrence; the damaged instances must all be discarded
+fn sabotage(what: &str) -> bool {
+  std::env::var("VH_REWRITE_SABOTAGE").map(|v| v == what).unwrap_or(false)
+}
+
 fn apply_site(a: &Analysis, site: &Site, rng: &mut Rng) -> Result<Applied, &'static str> {
   let m = *a.refs.get(&site.module).ok_or("no-module")?;
   let text = a.texts.get(&site.module).ok_or("no-module")?;
@@ -1306,7 +1313,11 @@ fn apply_site(a: &Analysis, site: &Site, rng: &mut Rng) -> Result<Applied, &'sta
       let fresh = fresh_ident(a, rng);
       let shorthand = shorthand_locs(parsed);
       let mut edits = vec![];
-      for l in &occurrences {
+      for (n, l) in occurrences.iter().enumerate() {
+        if sabotage("rename-partial") && n > 0 && n + 1 == occurrences.len() {
+          mods.rename.insert(*l, fresh.clone());
+          continue;
+        }
         if l.module_reference != m || ix.slice(l) != Some(name.as_str()) {
           return Err("occurrence-text");
         }
@@ -1328,12 +1339,12 @@ fn apply_site(a: &Analysis, site: &Site, rng: &mut Rng) -> Result<Applied, &'sta
       mods.mem_swap = Some((m, *top, *i, *j));
     }
     SiteData::Paren { loc } => {
-      let (s, e) = ix.extent(loc).ok_or("extent")?;
+      let (s, e) = if sabotage("range") { ix.range(loc) } else { ix.extent(loc) }.ok_or("extent")?;
       let edits = vec![Edit { s, e: s, text: "(".into() }, Edit { s: e, e, text: ")".into() }];
       sources.insert(site.module.clone(), apply_edits(text, edits).ok_or("overlap")?);
     }
     SiteData::Block { loc } => {
-      let (s, e) = ix.extent(loc).ok_or("extent")?;
+      let (s, e) = if sabotage("range") { ix.range(loc) } else { ix.extent(loc) }.ok_or("extent")?;
       let edits = vec![Edit { s, e: s, text: "{ ".into() }, Edit { s: e, e, text: " }".into() }];
       sources.insert(site.module.clone(), apply_edits(text, edits).ok_or("overlap")?);
       mods.block_at = Some(*loc);
